@@ -38,9 +38,9 @@ const (
 	OUle
 	OSlt
 	OSle
-	OZext  // val = target width
-	OSext  // val = target width
-	OExtr  // val = lo ; width = w
+	OZext // val = target width
+	OSext // val = target width
+	OExtr // val = lo ; width = w
 	OConcat
 )
 
@@ -480,11 +480,11 @@ func dedup(ts []*Term) []*Term {
 	return out
 }
 
-func Not(a *Term) *Term         { return mk(ONot, 0, 0, a) }
-func And(a ...*Term) *Term      { return mk(OAnd, 0, 0, a...) }
-func Or(a ...*Term) *Term       { return mk(OOr, 0, 0, a...) }
-func Ite(c, a, b *Term) *Term   { return mk(OIte, a.w, 0, c, a, b) }
-func Eq(a, b *Term) *Term       { return mk(OEq, 0, 0, a, b) }
+func Not(a *Term) *Term       { return mk(ONot, 0, 0, a) }
+func And(a ...*Term) *Term    { return mk(OAnd, 0, 0, a...) }
+func Or(a ...*Term) *Term     { return mk(OOr, 0, 0, a...) }
+func Ite(c, a, b *Term) *Term { return mk(OIte, a.w, 0, c, a, b) }
+func Eq(a, b *Term) *Term     { return mk(OEq, 0, 0, a, b) }
 func Bin(op Op, a, b *Term) *Term {
 	switch op {
 	case OUlt, OUle, OSlt, OSle, OEq:
